@@ -39,6 +39,26 @@ def d1(cx: Cx, ob: Ob) -> None:
                     ok = True
     if not ok:
         ob.violate(fn.qualname, fn.where, "chain does not raise ValueError on an empty sequence of converters", detail="empty")
+    # the other ValueError - a later record bridging two earlier ones - comes out of add_record and has to leave chain:
+    # a handler around the fold that catches it and does not raise turns "raises ValueError" into "drops the record"
+    import ast as _ast
+
+    for n in _ast.walk(fn.node):
+        if not isinstance(n, _ast.Try):
+            continue
+        if not any(isinstance(c, _ast.Call) and isinstance(c.func, _ast.Attribute) and c.func.attr in ("add_record", "add_prefix") for st in n.body for c in _ast.walk(st)):
+            continue
+        for h in n.handlers:
+            names = [] if h.type is None else [_ast.unparse(x).rsplit(".", 1)[-1] for x in (h.type.elts if isinstance(h.type, _ast.Tuple) else [h.type])]
+            catches = h.type is None or any(x in ("ValueError", "Exception", "BaseException") for x in names)
+            if catches and not any(isinstance(x, _ast.Raise) for st in h.body for x in _ast.walk(st)):
+                ob.violate(
+                    fn.qualname,
+                    where(fn, h.lineno),
+                    f"chain folds the records inside try / except {', '.join(names) or '<everything>'} and the handler does not raise: the ValueError add_record raises for a record that bridges two earlier ones is swallowed, the record is dropped and its prefixes and URI prefixes are missing from the result",
+                    witness="chain([c1, c2]) where a record of c2 shares a prefix with one record of c1 and a URI prefix with another: no error, the record's other names are lost",
+                    detail="swallowed-rejection",
+                )
     # a return that does not come out of the fold (no add_record on its path): the records of the inputs reach the
     # result without being matched against each other - with case_sensitive=False records equal up to case stay apart
     from ..rules import guard_atoms as _ga0
